@@ -324,6 +324,14 @@ fn value_for_untagged_enum(
 ) -> Option<TokenStream> {
     let type_ident = format_ident!("{}", type_name);
     variants.iter().find_map(|variant| {
+        // Only a variant that the value is valid for may be chosen: an
+        // expression can be produced for values that are not (e.g. an integer
+        // out of the range of the variant's type).
+        crate::defaults::validate_default_for_untagged_enum(
+            type_space,
+            std::slice::from_ref(variant),
+            value,
+        )?;
         let var_ident = format_ident!("{}", &variant.ident_name.as_ref().unwrap());
         match &variant.details {
             VariantDetails::Simple => {
